@@ -7,6 +7,8 @@ import (
 
 	"github.com/synnaxlabs/x/errors"
 	"github.com/synnaxlabs/x/gorp"
+	"github.com/synnaxlabs/x/set"
+	"github.com/synnaxlabs/x/types"
 )
 
 //verif:redirect github.com/synnaxlabs/synnax/pkg/distribution/channel.allLiteralNames github.com/synnaxlabs/synnax/pkg/distribution/channel.verifNotLiteral only=VerifC15AssignKeys
@@ -130,3 +132,20 @@ func VerifC15AssignKeys() {
 	verifAssert("counter-advances-by-created", int(after-before) == created)
 	verifReach("end")
 }
+
+// VerifNewService builds a channel service whose metadata table is the real gorp code over db (no indexes, no
+// ontology, no storage engine): enough for the retrieval paths used by the framer services.
+func VerifNewService(db *gorp.DB) *Service {
+	s := &Service{db: db, table: gorp.VerifOpenTable[Key, Channel](db)}
+	s.cfg.IntOverflowCheck = func(types.Uint20) error { return nil }
+	s.mu.externalNonVirtualSet = set.NewInteger[Key](nil)
+	return s
+}
+
+// VerifStoreChannel writes a channel row directly into the metadata table.
+func VerifStoreChannel(ctx context.Context, s *Service, ch Channel) error {
+	return s.table.NewCreate().Entry(&ch).Exec(ctx, s.db)
+}
+
+// VerifChanCodec is the ideal handle codec for Channel rows (see verifChanCodec).
+func VerifChanCodec() gorp.VerifCodec { return verifChanCodec() }
